@@ -136,8 +136,9 @@ class LabelProbabilityInjector(Injector):
         all_classes = np.unique(ret[:, target_col])
         undefined_classes = [k for k in all_classes if k not in class_probabilities]
 
-        # specified class probabilities must sum to 1 or less
-        if sum(class_probabilities.values()) > 1.0:
+        # specified class probabilities must sum to 1 or less (up to rounding,
+        # e.g. a Dirichlet draw can sum to 1 + 2e-16)
+        if sum(class_probabilities.values()) > 1.0 + 1e-9:
             raise ValueError(f"Probabilities in {class_probabilities} exceed 1")
 
         # args should not specify previously unseen classes
@@ -149,7 +150,7 @@ class LabelProbabilityInjector(Injector):
             )
 
         # undefined classes are resampled uniformly
-        missing_probability = 1 - sum(class_probabilities.values())
+        missing_probability = max(0.0, 1 - sum(class_probabilities.values()))
         for uc in undefined_classes:
             class_probabilities[uc] = missing_probability / len(undefined_classes)
 
